@@ -1610,3 +1610,25 @@ mut("c01-prev-hash-carried-over", ["C01"], [(BM, '''		prevHash := prevNode.Heade
 mut("c02-known-work-off-by-one", ["C02"], [(BM, "			for j := uint32(prevNode.Height); j > backHeight; j-- {", "			for j := uint32(prevNode.Height); j >= backHeight; j-- {")], ["C02.V3"])
 mut("quiet-known-work-counting-up", ["C02", "C04"], [(BM, "			for j := uint32(prevNode.Height); j > backHeight; j-- {", "			for j := backHeight; j < uint32(prevNode.Height); j++ {")], [])
 mut("quiet-known-work-bound-plus-one", ["C02", "C04"], [(BM, "			for j := uint32(prevNode.Height); j > backHeight; j-- {", "			for j := uint32(prevNode.Height); j >= backHeight+1; j-- {")], [])
+
+# ---- engine E: full-range loops ----
+BHV = "chainimport/block_headers_validator.go"
+FHV = "chainimport/filter_headers_validator.go"
+mut("c14-validatebatch-skips-last-pair", ["C14"], [(BHV, "	for i := 1; i < len(headers); i++ {", "	for i := 1; i < len(headers)-1; i++ {")], ["C14.V2"])
+mut("c14-validatebatch-starts-at-two", ["C14"], [(BHV, "	for i := 1; i < len(headers); i++ {", "	for i := 2; i < len(headers); i++ {")], ["C14.V2"])
+mut("c14-filter-validatebatch-early-break", ["C14"], [(FHV, "	for _, header := range headers {\n		if err := v.ValidateSingle(header); err != nil {", "	for i, header := range headers {\n		if i >= 2000 {\n			break\n		}\n		if err := v.ValidateSingle(header); err != nil {")], ["C14.V2"])
+mut("quiet-validatebatch-forward-pairs", ["C14"], [(BHV, "	for i := 1; i < len(headers); i++ {\n		if err := v.ValidatePair(headers[i-1], headers[i]); err != nil {", "	for i := 0; i < len(headers)-1; i++ {\n		if err := v.ValidatePair(headers[i], headers[i+1]); err != nil {")], [])
+mut("quiet-filter-validatebatch-index-loop", ["C14"], [(FHV, "	for _, header := range headers {\n		if err := v.ValidateSingle(header); err != nil {", "	for i := 0; i <= len(headers)-1; i++ {\n		header := headers[i]\n		if err := v.ValidateSingle(header); err != nil {")], [])
+mut("c03-verifycheckpoint-ignores-last-hash", ["C03"], [(BM, "	for _, hash := range cfheaders.FilterHashes {\n		lastHeader = chainhash.DoubleHashH(", "	for _, hash := range cfheaders.FilterHashes[:len(cfheaders.FilterHashes)-1] {\n		lastHeader = chainhash.DoubleHashH(")], ["C03.V2"])
+mut("c19-first-committed-header-not-announced", ["C19"], [(BM, "	for i, header := range matchingBlockHeaders {\n		headerHeight := startHeight + uint32(i)", "	for i, header := range matchingBlockHeaders {\n		if i == 0 && len(matchingBlockHeaders) > 1 {\n			continue\n		}\n		headerHeight := startHeight + uint32(i)")], ["C19.X1"])
+mut("c19-event-height-off-by-one", ["C19"], [(BM, "		headerHeight := startHeight + uint32(i)\n		b.fltrHeaderProgessLogger", "		headerHeight := startHeight + uint32(i) + 1\n		b.fltrHeaderProgessLogger")], ["C19.X1"])
+mut("c01-link-check-stops-early", ["C01"], [(BM, '''	for _, blockHeader := range headers {
+		blockHash := blockHeader.BlockHash()
+
+		// If we haven't yet set lastHeader, set it now.''', '''	for i, blockHeader := range headers {
+		if i > 1000 {
+			return true
+		}
+		blockHash := blockHeader.BlockHash()
+
+		// If we haven't yet set lastHeader, set it now.''')], ["C01.G3"])
